@@ -84,7 +84,8 @@ CLAIMS = {
         text="TLC proves the three two-pointer scans (PlusCal transcription) equal the declarative definition on every array/query "
              "list of the bounded lattice, checks the lemmas of the definition, and emits every lattice input; each is replayed through "
              "the real scan functions and the dispatcher (12 calls per input) and the recorded index vectors are judged by TLC against "
-             "the definition, together with seeded random float arrays whose ulp-adjacent queries are mapped exactly to integers.",
+             "the definition, together with seeded random float arrays whose ulp-adjacent queries are mapped exactly to integers. "
+             "The integer version of the scans is additionally checked symbolically by Apalache over unbounded integers (fixed lengths).",
         ref="DESIGN.md 4 (C10)",
         note=TB + "; floats base+k*ulp in one binade are an exact affine image of the integers k"),
     "C11": dict(
@@ -143,14 +144,16 @@ CLAIMS = {
              "loader stubbed) is extracted from the working tree at check time; TLC evaluates the invariants (every name resolves, URL / "
              "checksum / remote file / cache slot injective, '-'/'_' variants agree) and explores sequential healthy loads of all ordered "
              "pairs of the 76 remote datasets (NoCrossTalk, distinct slots); every name is then replayed through the real load_dataset "
-             "(both unpack values, fake network, TRAFFIC_WEAVER_DATA honoured) and the recorded events are judged by TLC; a model-level "
+             "(both unpack values, fake network, TRAFFIC_WEAVER_DATA honoured) and the recorded events are judged by TLC; where the cache "
+             "lives is a small state machine of its own (DataHome.tla: variable set / unset, directory argument, creation, clearing) whose "
+             "whole state graph is replayed in a scratch HOME and validated step by step; a model-level "
              "counterexample becomes a VIOLATION only after it has been reproduced on the real loader.",
         ref="DESIGN.md 4 (C18), 10.7", note=TB + "; payloads are synthetic, _sha256 is replaced by a table for registry-level loads (and checked against hashlib separately)"),
     "C19": dict(
         technique="TLA+ specification of the remote loader as processes x network x filesystem x crashes (DatasetCache.tla) model-checked by TLC incl. liveness; TLC trace validation of real forked, step-gated loaders with real SIGKILLs",
         category="model_checking",
         text="TLC explores every interleaving, fault sequence and crash point of 1 and 2 (thorough: 3) loader processes (13 step boundaries, "
-             "Crash at each, probe loads afterwards) checking CacheSound, NeverUnverified, OfflineWhenCached, RetryBound, NoCrossTalk and, "
+             "Crash at each, probe loads afterwards) checking CacheSound, NeverUnverified, OfflineWhenCached, ServedWhenCached, RetryBound, NoCrossTalk and, "
              "under fairness, LaterLoadSucceeds; the labelled state graph is dumped and a transition cover plus seeded walks, simulated "
              "many-process behaviours and random schedules are replayed into real forked loader processes gated at the step boundaries, "
              "killed with SIGKILL at the chosen boundary; after every step the cache slots, temp files, network calls and results are "
